@@ -183,7 +183,11 @@ func cmdCheck(id, tier string) int {
 	defer os.RemoveAll(dir)
 	var all []*Obligation
 	for _, r := range results {
-		all = append(all, r.Obligs...)
+		for _, o := range r.Obligs {
+			if o.Props == nil || hasProp(o.Props, id) {
+				all = append(all, o)
+			}
+		}
 	}
 	dischargeAll(all, dir, timeout, cross, *flagPar)
 	// Obligations that ran out of time are retried once with a longer limit and
@@ -203,7 +207,9 @@ func cmdCheck(id, tier string) int {
 	known := loadKnownFindings(filepath.Join(*flagVerif, "known-findings.txt"))
 	isKnown := func(name string) *knownFinding {
 		for i := range known {
-			if known[i].Prop == id && known[i].Oblig == name {
+			// a finding is about an obligation; the obligation may serve several
+			// properties and is reported under each of them
+			if known[i].Oblig == name {
 				return &known[i]
 			}
 		}
@@ -251,6 +257,9 @@ func cmdCheck(id, tier string) int {
 		var groups []*group
 		gidx := map[string]*group{}
 		for _, o := range r.Obligs {
+			if o.Props != nil && !hasProp(o.Props, id) {
+				continue // the clause belongs to other properties of this function
+			}
 			solverS += o.Time
 			base := partSuffixRe.ReplaceAllString(o.Name, "")
 			g := gidx[base]
